@@ -62,7 +62,8 @@ type request struct {
 
 func main() {
 	dir := flag.String("dir", "", "origin state directory")
-	backendAddr := flag.String("backend", "", "testfs server address (in the parent)")
+	backendA := flag.String("backend-a", "", "testfs server (in the parent) for namespaces a/...")
+	backendB := flag.String("backend-b", "", "testfs server (in the parent) for every other namespace")
 	capacity := flag.Int("capacity", 3, "CAStore LRU capacity (entries)")
 	otherOrigin := flag.String("other-origin", "", "a second (unreachable) ring member, or empty")
 	ttiSec := flag.Int64("tti-sec", 3600, "cache cleanup TTI")
@@ -101,12 +102,15 @@ func main() {
 	db, err := localdb.New(localdb.Config{Source: filepath.Join(*dir, "db", "kraken.db")})
 	must(err, "localdb")
 
-	backends, err := backend.NewManager(backend.ManagerConfig{}, []backend.Config{{
-		Namespace: ".*",
-		Backend: map[string]interface{}{"testfs": map[string]interface{}{
-			"addr": *backendAddr, "root": "root", "name_path": "sharded_docker_blob",
-		}},
-	}}, backend.AuthConfig{}, tally.NoopScope)
+	testfsCfg := func(addr string) map[string]interface{} {
+		return map[string]interface{}{"testfs": map[string]interface{}{
+			"addr": addr, "root": "root", "name_path": "sharded_docker_blob",
+		}}
+	}
+	backends, err := backend.NewManager(backend.ManagerConfig{}, []backend.Config{
+		{Namespace: "^a/.*", Backend: testfsCfg(*backendA)},
+		{Namespace: ".*", Backend: testfsCfg(*backendB)},
+	}, backend.AuthConfig{}, tally.NoopScope)
 	must(err, "backend manager")
 
 	wbm, err := persistedretry.NewManager(persistedretry.Config{
